@@ -422,3 +422,45 @@ META["C18"] = {
                "thorough": {"tables_compared": 70000, "permutation_round_trips": 20000, "compiled": 1600, "compiled_executions": 3000,
                             "three_party_executions": 3000, "distinct_nontrivial": 60000}},
 }
+
+
+META["C19"] = {
+    "level": "exploration",
+    "rule": "pairs of tables with 1..8 rows each, null rows at random positions (arbitrary content), 1-3 key columns of any scalar type and "
+            "row shapes (scalar, vector, matrix per row), renamed or equally named key headers, disjoint / partial / full key overlap, "
+            "0-2 payload columns per table, column order and null-column position shuffled; 4 join types x {unmasked, masked (key and "
+            "payload masks)}; compiled joins under owner classes private-private / private-public / public-private with random output "
+            "lists and inline modes, executed by one evaluator and by three parties; a case is one pair of tables (and configuration); "
+            "non-trivial = at least 3 rows in total (plaintext) / at least one private table (compiled); distinct by hash of (types, draw)",
+    "assumptions": COMMON_ASSUMPTIONS + [
+        "oracle for plaintext joins = an independent relational join written from the Graph::join / join_with_column_masks "
+        "documentation (row-aligned result: inner/left results have the first table's rows, union/full the first table's rows then the "
+        "second's; zero filling; null markers; masked-out key entries never match)",
+        "generated tables satisfy the documented uniqueness precondition", M2_ASSUMPTION,
+        "the hash-based protocol's abort (cuckoo hashing failure) is tolerated and counted",
+    ],
+    "floors": {"quick": {"plaintext_joins_compared": 3000, "compiled": 30, "compiled_executions": 50, "three_party_executions": 50,
+                         "distinct_nontrivial": 2500},
+               "thorough": {"plaintext_joins_compared": 60000, "compiled": 600, "compiled_executions": 1000, "three_party_executions": 1000,
+                            "distinct_nontrivial": 50000}},
+    "soft_s": {"quick": 240, "thorough": 2400},
+}
+
+
+META["C20"] = {
+    "level": "exploration",
+    "rule": "swept input arrays per operation and configuration: NewtonInversion (5 (iterations, cap) settings, signed / unsigned, with and "
+            "without an initial approximation) over (0, 2^(cap-1)); InverseSqrt over (0, min(2^(2cap-1), 2^21)); GoldschmidtDivision over "
+            "divisor sweeps x 9 dividends; TaylorExponent and ApproxExponent (p = 8, 10, 12) on x/2^p in [-9.8, 9.8]; ApproxSigmoid / "
+            "ApproxGelu on [-12, 12] / [-8, 8] incl. every bucket boundary +-1; FixedMultiply exact on 14x14 operand pairs; thorough "
+            "enumerates every grid point (stride 1), quick strides the middle of large domains but keeps both ends dense; compiled "
+            "versions on 64 sampled points each; a case is one chunk of <= 4096 points; all non-trivial; distinct by (sweep, chunk)",
+    "assumptions": COMMON_ASSUMPTIONS + [
+        "oracle = f64 evaluation of the exact function; tolerances from config/tolerances.json (the authors' own test tolerances, fixed "
+        "before the sweeps were run, with their provenance)",
+        "compiled results must stay within twice that tolerance of the exact function",
+    ],
+    "floors": {"quick": {"points_checked": 100000, "compiled": 15, "compiled_points_checked": 900, "distinct_nontrivial": 60},
+               "thorough": {"points_checked": 2000000, "compiled": 80, "compiled_points_checked": 5000, "distinct_nontrivial": 600}},
+    "soft_s": {"quick": 240, "thorough": 2400},
+}
